@@ -1,6 +1,7 @@
 package main
 
 import (
+	"go/token"
 	"go/types"
 
 	"golang.org/x/tools/go/ssa"
@@ -10,9 +11,10 @@ func init() {
 	register(&property{
 		ID: "C16",
 		Explanation: "Decides that neither hot-restart state machine (Listener.state, SessionManager.state) can be left in hotRestartState without a time-out running: every store of hotRestartState is followed on every path by the spawn of the checker goroutine or by a store of another state (one listed exception, whose infeasibility side-conditions are re-verified on every run); " +
-			"the checker goroutines leave the state on every exit (store of a non-hot-restart state, or a test that it already differs) and wait on a timer armed with the time-out constant; a stale or foreign epoch changes nothing (state changes of the ack handler are behind epoch equality; the manager's handler returns before any store when the epoch differs during a restart); acknowledgements are sent only on the all-pools-swapped edge, where the state is reset, and the time-out edge closes the reserve pools; the handlers are nil-safe (C13 R13.4); a pool that the hand-over did not swap is still rebuilt when its old session dies, because the watcher compares session epochs, not the manager's epoch. " +
-			"NOT decided: that every pool ends on a fresh session of the announced epoch, usability of old sessions meanwhile, ack counting under duplicates/losses, bounded time.",
-		RuleText: "R16.1 must-pass-through from each store of hotRestartState; R16.2 per return of each checker (functions with a select on a timer whose loop stores a state); R16.3 dominance of state stores by epoch tests; R16.4 edge placement of ack sending and pool closing; R16.5 reference to C13 R13.4; R16.6 the watcher's replaced-by-hot-restart test (shared with C17 R17.2).",
+			"the checker goroutines leave the state on every exit (store of a non-hot-restart state, or a test that it already differs) and wait on a timer armed with the time-out constant; a stale or foreign epoch changes nothing (state changes of the ack handler are behind epoch equality; the manager's handler returns before any store when the epoch differs during a restart); acknowledgements are sent only on the all-pools-swapped edge, where the state is reset, and the time-out edge closes the reserve pools; the handlers are nil-safe (C13 R13.4); a pool that the hand-over did not swap is still rebuilt when its old session dies, because the watcher compares session epochs, not the manager's epoch; " +
+			"a pool is recorded as handed over exactly when it is swapped for a pool whose session was created without error for the announced epoch (so a partial failure is not acknowledged as complete). " +
+			"NOT decided: that the new server accepts every session, usability of old sessions meanwhile, ack counting under duplicates/losses, bounded time.",
+		RuleText: "R16.1 must-pass-through from each store of hotRestartState; R16.2 per return of each checker (functions with a select on a timer whose loop stores a state); R16.3 dominance of state stores by epoch tests; R16.4 edge placement of ack sending and pool closing; R16.5 reference to C13 R13.4; R16.6 the watcher's replaced-by-hot-restart test (shared with C17 R17.2); R16.7 pairing (dominance / must-pass-through) of reservePools records with pools swaps, both behind the success edge of a session creator called with the epoch.",
 		Run:      runC16,
 	})
 }
@@ -370,7 +372,9 @@ func runC16(p *P, r *R) {
 		}
 		r.ob("R16.4", "Listener.checkHotRestart: the restart is declared done only when every acknowledgement arrived", p.pos(chk.Pos()), ok, true, "")
 	}
-	r.note("R16.5 (nil safety of handleHotRestart / handleHotRestartAck) is decided by C13 R13.4")
+	c16SwapDiscipline(p, r)
+	// R16.5 the hot-restart handlers are nil-safe on sessions without manager / listener (shared with C13 R13.4)
+	borrow(p, r, "C13", runC13, map[string]string{"R13.4": "R16.5"}, func(o Ob) bool { return constructHas(o, "Session.manager", "Session.listener") })
 	// R16.6 pools that the hot restart did not swap keep being healed (shared with C17 R17.2)
 	watcherEpochTest(p, r, "R16.6")
 	_ = types.Typ
@@ -461,4 +465,107 @@ func c16SideConditions(p *P) (bool, bool) {
 		}
 	}
 	return sc1 && n1 > 0, sc2 && n2 > 0
+}
+
+// c16SwapDiscipline (R16.7): the session manager declares the hand-over complete when it has recorded as many pools in
+// reservePools as it has pools, so "recorded" must mean "swapped": recording the old pool and installing the new pool
+// come together on every path, the new pool is installed only after its session was created successfully, and that
+// session is created for the manager's (announced) epoch. Otherwise a partial failure is acknowledged as a completed
+// hand-over and the pool that never moved dies with the old server.
+func c16SwapDiscipline(p *P, r *R) {
+	isPoolsSlot := func(addr ssa.Value) bool {
+		ia, ok := addr.(*ssa.IndexAddr)
+		return ok && isLoadOf(ia.X, "SessionManager.pools")
+	}
+	isRecord := func(in ssa.Instruction) bool {
+		mu, ok := in.(*ssa.MapUpdate)
+		return ok && isLoadOf(mu.Map, "SessionManager.reservePools")
+	}
+	isSwap := func(in ssa.Instruction) bool {
+		st, ok := in.(*ssa.Store)
+		return ok && isPoolsSlot(st.Addr)
+	}
+	nRec := 0
+	for _, f := range p.fnList {
+		var recs, swaps []ssa.Instruction
+		allInstrs(f, func(in ssa.Instruction) {
+			if isRecord(in) {
+				recs = append(recs, in)
+			}
+			if isSwap(in) {
+				swaps = append(swaps, in)
+			}
+		})
+		if len(recs) == 0 {
+			continue
+		}
+		fn := p.fname(f)
+		r.Scope[fn] = true
+		pair := func(xs []ssa.Instruction, other func(ssa.Instruction) bool, others []ssa.Instruction, what string) {
+			for _, x := range xs {
+				ok := false
+				for _, y := range others {
+					if instrDominates(y, x) {
+						ok = true
+					}
+				}
+				detail := ""
+				if !ok {
+					res := p.mustPass(f, []Point{pointOf(x)}, other, nil, nil)
+					ok = res.OK
+					detail = p.pathString(res)
+				}
+				r.ob("R16.7", fn+": "+what, p.ipos(x), ok, true, "%s", detail)
+			}
+		}
+		pair(recs, isSwap, swaps, "a pool recorded as handed over is swapped for the new pool on every path")
+		pair(swaps, isRecord, recs, "a swapped-out pool is recorded as handed over on every path")
+		for _, x := range recs {
+			nRec++
+			mu := x.(*ssa.MapUpdate)
+			// the recorded value is the pool that is being replaced
+			okVal := false
+			if u, ok := mu.Value.(*ssa.UnOp); ok && u.Op == token.MUL && isPoolsSlot(u.X) {
+				okVal = true
+			}
+			r.ob("R16.7", fn+": the pool recorded as handed over is the one currently installed", p.ipos(x), okVal, true, "")
+		}
+		// the swap happens only after a session of the manager's epoch was created successfully
+		for _, x := range swaps {
+			okCreated, okEpoch := false, false
+			allInstrs(f, func(in ssa.Instruction) {
+				c, ok := in.(*ssa.Call)
+				if !ok {
+					return
+				}
+				g := c.Call.StaticCallee()
+				if g == nil || g.Signature.Results().Len() != 2 || namedName(g.Signature.Results().At(0).Type()) != "Session" {
+					return
+				}
+				var errV ssa.Value
+				for _, ref := range *c.Referrers() {
+					if ex, ok := ref.(*ssa.Extract); ok && ex.Index == 1 {
+						errV = ex
+					}
+				}
+				if errV == nil || !instrDominates(c, x) {
+					return
+				}
+				isErr := func(v ssa.Value) bool { return v == errV }
+				for _, fct := range factsAt(x.Block()) {
+					if relOn(fct.Cond, fct.Truth, isErr, isNilConst) == "==" {
+						okCreated = true
+					}
+				}
+				for _, a := range c.Call.Args {
+					if isLoadOf(a, "SessionManager.epoch") || isLoadOf(a, "sessionManagerHotRestartParams.epoch") {
+						okEpoch = true
+					}
+				}
+			})
+			r.ob("R16.7", fn+": the new pool is installed only after its session was created without error", p.ipos(x), okCreated, true, "")
+			r.ob("R16.7", fn+": the new session is created for the manager's (announced) epoch", p.ipos(x), okEpoch, true, "")
+		}
+	}
+	r.count("R16.7", "sites recording a pool as handed over", nRec, 1)
 }
